@@ -515,15 +515,82 @@ def check_extreme(case, st):
         st.violation("extreme|sum-raises|%s" % cont, case, "C05 %s: after a %s= %r twice (result %s), r + r raised %r" % (cont, "/" if op == "div" else "*", c, short(dict(cur)), r2.exc))
 
 
+# ------------------------------------------------------------------ equal labels of different types inside one key (Engine A)
+
+# 1 == True == 1.0 as dict keys: inside one key they are ONE variable, whatever the library's sort order puts between them
+EQ_KEYS = [(True, 0, 1), (1, 0, True), (1.0, 0, 1), (1, 0, 1.0), (1, 2, 1.0), (True, 2, 0, 1), (0, True, 1), (True, 1.0, 1, 0), (2, 1, 0, True, 2)]
+EQ_ROUTES = ("dict", "setitem", "mul", "mul-dict", "imul")
+
+
+def eqlabel_cases():
+    for typ in ("PUSO", "PCSO", "PUBO", "PCBO"):
+        for k in range(len(EQ_KEYS)):
+            for route in EQ_ROUTES:
+                yield {"part": "eqlabels", "type": typ, "key": k, "route": route}
+
+
+def check_eqlabels(case, st):
+    qv = paths.import_qubovert()
+    typ, key, route = case["type"], EQ_KEYS[case["key"]], case["route"]
+    T = getattr(qv, typ)
+    spin = typ in ("PUSO", "PCSO")
+    st.nontrivial += 1
+    st.transitions += 1
+    st.traces += 1
+
+    def build():
+        if route == "dict":
+            return T({key: 2})
+        if route == "setitem":
+            M = T()
+            M[key] = 2
+            return M
+        a = T({key[:-1]: 2})
+        if route == "mul":
+            return a * T({key[-1:]: 1})
+        if route == "mul-dict":
+            return a * {key[-1:]: 1}
+        a *= T({key[-1:]: 1})
+        return a
+    R, _w = call(build)
+
+    def v(kind, msg):
+        st.violation("eqlabels|%s|%s|%s" % ("spin" if spin else "bool", route, kind), case, "C05 %s, key %r via %s: %s" % (typ, key, route, msg))
+    if isinstance(R, Raised):
+        v("raises-" + R.kind, "raised %r" % R.exc)
+        return
+    for k in R:
+        if any(k[i] == k[j] for i in range(len(k)) for j in range(i + 1, len(k))):
+            v("duplicate-in-key", "stored key %r holds the same variable twice (result %s)" % (k, short(dict(R))))
+            return
+    if len(R) > 1:
+        v("terms", "one monomial became %d terms: %s" % (len(R), short(dict(R))))
+        return
+    for bits in range(8):
+        x = rp.assignment(bits, [0, 1, 2], spin)
+        want = 2
+        for lab in (0, 1, 2):
+            m = sum(1 for l in key if l == lab)
+            if (m % 2) if spin else m:
+                want *= x[lab]
+        got, _w = call(R.value, x)
+        st.transitions += 1
+        if isinstance(got, Raised) or abs(got - want) > 1e-9:
+            v("value", "value at %r is %r, direct evaluation gives %r (result %s)" % (x, got, want, short(dict(R))))
+            return
+    st.outcomes["eqlabels ok"] += 1
+
+
 def run(ctx):
     depth = 2 if ctx.quick else 3
     ctx.bounds = {"variables": 3, "leaves": [rp.jdict(x) for x in LEAVES], "raw_dict_leaf": rp.jdict(RAW_BOOL), "raw_dict_leaf_2": rp.jdict(RAW2), "numbers": NUMBERS, "divisors": DIVS,
-                  "schemes": SCHEMES, "extreme_scalars": [[o, repr(c)] for o, c in EXTREME], "expression_depth": depth, "coef_bound": COEF_BOUND, "ops_per_state": len(op_menu("bool", "int"))}
+                  "schemes": SCHEMES, "extreme_scalars": [[o, repr(c)] for o, c in EXTREME], "equal_label_keys": [repr(k) for k in EQ_KEYS], "expression_depth": depth, "coef_bound": COEF_BOUND, "ops_per_state": len(op_menu("bool", "int"))}
     ctx.rule = ("state = (kind, labels, type, stored dict) reached by an expression history; every operator application from every state up to the depth; "
                 "non-trivial = value has >= 2 terms; plus the value functions on every leaf x container x label scheme x assignment x sequence form")
     ctx.assumptions = ["one side of every operator application is a leaf (left/right-deep expression trees)"]
     explore_cases(ctx, lambda: value_cases(), check_values, label="C05 values")
     explore_cases(ctx, lambda: extreme_cases(), check_extreme, label="C05 extreme scalars")
+    explore_cases(ctx, lambda: eqlabel_cases(), check_eqlabels, label="C05 equal labels of different types")
     bfs(ctx, step, enabled, max_depth=depth + 1, label="C05 expressions",
         count_outcome=lambda h, r: "violation" if r["viol"] else ("raised-allowed/pruned" if r["key"] is None or not r.get("expand", True) else "ok"))
     ctx.exhaustive = True
@@ -537,6 +604,10 @@ def replay(case):
     if isinstance(case, dict) and case.get("part") == "extreme":
         st = Stats()
         check_extreme({k: case[k] for k in ("part", "kind", "container", "op", "inplace")}, st)
+        return [(s, m) for s, c, m in st.viol]
+    if isinstance(case, dict) and case.get("part") == "eqlabels":
+        st = Stats()
+        check_eqlabels({k: case[k] for k in ("part", "type", "key", "route")}, st)
         return [(s, m) for s, c, m in st.viol]
     r = step(case)
     return r["viol"]
